@@ -209,9 +209,33 @@ impl<'a> G<'a> {
         chain
     }
 
+    /// Every small shape of + and - over constructors of one class, next to another class or alone, whose value stays
+    /// positive: `X(a) - X(b)`, `X(a) - X(b) + Ada(q)`, `Ada(q) + (X(a) - X(b))`, `X(a) - X(b) + Y(c)`,
+    /// `X(a) + Y(c) - X(b)`, `X(a) - (X(b) - X(c))` (a constructor met by a value that has already been through
+    /// arithmetic, on either side).
+    fn shaped_assets(&mut self) -> E {
+        let (c, b, a) = (self.r.range(1, 20), self.r.range(21, 60), self.r.range(61, 500));
+        let x = if self.tokens.is_empty() { "Ada".to_string() } else { self.r.pick(&self.tokens).clone() };
+        let y = if x == "Ada" { self.tokens.first().cloned().unwrap_or_else(|| "Ada".into()) } else { "Ada".to_string() };
+        let mk = |t: &str, n: i64| E::Call(t.to_string(), vec![E::Num(n)]);
+        let sub = |l: E, r: E| E::Sub(Box::new(l), Box::new(r));
+        let add = |l: E, r: E| E::Add(Box::new(l), Box::new(r));
+        match self.r.below(6) {
+            0 => sub(mk(&x, a), mk(&x, b)),
+            1 => add(sub(mk(&x, a), mk(&x, b)), mk(&y, 2_000_000)),
+            2 => add(mk(&y, 2_000_000), sub(mk(&x, a), mk(&x, b))),
+            3 => add(sub(mk(&x, a), mk(&x, b)), mk(&y, c)),
+            4 => sub(add(mk(&x, a), mk(&y, c)), mk(&x, b)),
+            _ => sub(mk(&x, a), sub(mk(&x, b), mk(&x, c))),
+        }
+    }
+
     fn small_assets(&mut self, depth: usize) -> E {
         if self.r.chance(1, 8) {
             return self.dipping_assets();
+        }
+        if self.r.chance(1, 6) {
+            return self.shaped_assets();
         }
         let a = self.asset_atom();
         if depth == 0 || self.r.chance(1, 2) {
